@@ -311,12 +311,18 @@ def seq_job(arg):
                     rep.count("answers_checked", 2)
                     if not st.has_blob(key):
                         bad("stored key %s.. not present at the end" % key[:6], "has-blob-wrong")
-                    r = st.fetch_blob(key)
+                    try:
+                        r = st.fetch_blob(key)
+                    except BaseException as e:
+                        r = "%s: %s" % (type(e).__name__, str(e)[:80])
                     if not _same(r, val):
                         bad("final fetch_blob(%s..)=%r, stored %r" % (key[:6], r, val), "blob-roundtrip")
                 for p, key in pmap.items():
                     rep.count("answers_checked")
-                    r = st.fetch_paths([p]).get(p)
+                    try:
+                        r = st.fetch_paths([p]).get(p)
+                    except BaseException as e:
+                        r = "%s: %s" % (type(e).__name__, str(e)[:80])
                     if r != key:
                         bad("final fetch_paths(%s)=%r, committed %s.." % (p, r, key[:6]), _alias_mech(p, r, pmap))
             if ok and blobs and kind in ("local", "local_lru", "local_linked"):
